@@ -547,7 +547,9 @@ def show(t, depth=0):
     if tag == "func":
         return f"<func {t[1]}>"
     if tag == "comp":
-        return f"[{show(t[2])} for {t[3]} in {show(t[4])}" + (f" if {show(t[5])}" if t[5] else "") + "]"
+        conds = t[5] if isinstance(t[5], tuple) else ()
+        cs = " and ".join(show(c) if isinstance(c, tuple) and c and isinstance(c[0], str) else str(c) for c in conds)
+        return f"[{show(t[2])} for {t[3]} in {show(t[4])}" + (f" if {cs}" if cs else "") + "]"
     if tag == "fstr":
         return "f'" + "".join(x[1] if x[0] == "const" and isinstance(x[1], str) else "{" + show(x) + "}" for x in t[1]) + "'"
     if tag == "unknown":
@@ -860,6 +862,10 @@ class TermBuilder:
             for p in path[1:]:
                 t = canon_item(t, p)
             return t
+        if it[0] == "call" and it[1] == G("zip") and not path and it[2] and not it[3]:
+            # the whole element of a zip: the tuple of the zipped sequences' elements
+            idx = ("idx", lid, "zip")
+            return ("tuple", tuple(canon_sub(a_, idx) for a_ in it[2]))
         if it[0] == "call" and it[1] == G("range") and not path:
             return ("idx", lid, "range", it[2])
         if it[0] == "call" and it[0:2] == ("call", ("attr", None, "items"))[0:1] and False:
@@ -976,6 +982,10 @@ class TermBuilder:
             return (tag, tuple(T(v) for v in e.values))
         if isinstance(e, ast.IfExp):
             tt, ta, tb = T(e.test), T(e.body), T(e.orelse)
+            if tt[0] == "const" and isinstance(tt[1], (bool, int)) and not isinstance(tt[1], float):
+                return ta if tt[1] else tb   # a flag known at this (inlined) call site chooses the branch
+            if tt[0] == "not" and tt[1][0] == "const" and isinstance(tt[1][1], (bool, int)):
+                return tb if tt[1][1] else ta
             if self.guarded:
                 from .guards import literals as _lits
                 return ("gphi", frozenset({(tuple(_lits(tt, True)), ta), (tuple(_lits(tt, False)), tb)}))
